@@ -3,6 +3,7 @@ CONSTANTS
  Family = "tiny"
  MaxMid = 11
  MaxTiny = 7
+ CarryTail = 2
  CarryLens = {}
 INIT Init
 NEXT Next
